@@ -42,8 +42,9 @@ def counts(r, n):
 class St:
     """what the generator believes about the case so far (only used to aim the arguments)"""
 
-    def __init__(self, keys):
+    def __init__(self, keys, members=None):
         self.keys = keys
+        self.members = members or MEMBERS
         self.size = {}
 
     def n(self, k):
@@ -53,7 +54,7 @@ class St:
 def set_cmd(r, st):
     keys = st.keys
     k = lambda: pick(r, keys)
-    m = lambda: pick(r, MEMBERS)
+    m = lambda: pick(r, st.members)
     c = r.randrange(100)
     if c < 18:
         key = k()
@@ -79,7 +80,10 @@ def set_cmd(r, st):
         key = k()
         a = [randcase(r, b"spop"), key]
         if r.random() < 0.7:
-            a.append(counts(r, st.n(key)))
+            cnt = counts(r, st.n(key))
+            if cnt.startswith(b"-") and r.random() < 0.8:
+                cnt = cnt[1:]       # SPOP refuses negative counts: keep most of them on the accepting side
+            a.append(cnt)
         st.size[key] = max(0, st.n(key) - 1)
         return a
     if c < 63:
@@ -90,10 +94,10 @@ def set_cmd(r, st):
         return a
     if c < 78:
         name = pick(r, [b"sunion", b"sinter", b"sdiff", b"SUNION", b"SInter", b"sDIFF"])
-        return [name] + [k() for _ in range(r.randrange(1, 6))]
+        return [name] + [k() for _ in range(r.choice([1, 2, 2, 2, 3, 3, 4, 5]))]
     if c < 92:
         name = pick(r, [b"sunionstore", b"sinterstore", b"sdiffstore", b"SUNIONSTORE", b"SInterStore", b"sdiffSTORE"])
-        ops = [k() for _ in range(r.randrange(1, 6))]
+        ops = [k() for _ in range(r.choice([1, 2, 2, 2, 3, 3, 4, 5]))]
         dst = pick(r, ops) if r.random() < 0.3 else k()
         st.size[dst] = max(st.n(o) for o in ops)
         return [name, dst] + ops
@@ -103,21 +107,21 @@ def set_cmd(r, st):
         return [b"expire", k(), pick(r, [b"1", b"2", b"3", b"100"])]
     # malformed arity / odd names
     name = pick(r, SETNAMES + [b"member", b"MEMBER", b"sscan", b"smismember"])
-    return [name] + [pick(r, MEMBERS[:8] + keys + [b"1", b"-1", b"list"]) for _ in range(r.randrange(0, 5))]
+    return [name] + [pick(r, st.members + keys + [b"1", b"-1", b"list"]) for _ in range(r.randrange(0, 5))]
 
 
 def prepop(r, c, st):
     keys = st.keys
     # one or two keys of another type
-    if r.random() < 0.6:
+    if r.random() < 0.4:
         c.cmd([b"set", keys[0], pick(r, [b"v", b"", b"10"])])
-    if len(keys) > 3 and r.random() < 0.3:
+    if len(keys) > 3 and r.random() < 0.2:
         c.cmd([b"rpush", keys[1], b"a", b"b"])
     # some sets, some of them with a deadline that passes during the case
     for key in keys[1:]:
         x = r.random()
-        if x < 0.55:
-            ms = r.sample(MEMBERS, r.randrange(1, 7))
+        if x < 0.7:
+            ms = r.sample(st.members, r.randrange(1, min(7, len(st.members) + 1)))
             c.cmd([b"sadd", key] + ms)
             st.size[key] = len(ms)
             if r.random() < 0.3:
@@ -129,7 +133,8 @@ def gen_c11(seed, ncases, maxlen=30):
     cases = []
     for i in range(ncases):
         c = Case("c11_%d_%d" % (seed, i))
-        st = St(r.sample(KEYS, r.randrange(3, 7)))
+        # a small member pool per case, so that operands overlap and removals hit
+        st = St(r.sample(KEYS, r.randrange(3, 7)), r.sample(MEMBERS, r.randrange(3, 9)))
         prepop(r, c, st)
         n = r.randrange(1, maxlen + 1)
         every = r.random() < 0.5
